@@ -30,7 +30,8 @@ RULE = (
     "seeded indexed directories (sections whose headers carry tags, simple and multi-word inline properties; multi-line notes; "
     "other notes mentioning the moved ZID in plain text and as [ZID]) x every kind of destination (existing page with notes / "
     "with sections / header + blank line only / ending in a multi-line item / ending in a section header, missing with a "
-    "matching template, the source page itself) x marker in {none, x, ~}. distinct = distinct (destination kind, marker, "
+    "matching template, EXISTING with a matching template, the source page itself; destination named with and without .zo, "
+    "relative to the notes directory while the process runs elsewhere) x marker in {none, x, ~}. distinct = distinct (destination kind, marker, "
     "moved-note shape: kind, multi-line?, #inherited tags, #inherited properties, mentioned elsewhere?) signatures; "
     "non-trivial = every successful move."
 )
@@ -60,7 +61,7 @@ def plan(tier: str, seed: int) -> list[dict]:
     return [{"kind": "dir", "idx": i, "nmoves": n_moves, "seed": seed} for i in range(n_dirs)]
 
 
-DEST_KINDS = ["existing", "existing", "existing", "header_blank", "ends_multiline", "ends_section_header", "missing_template", "self", "header_only"]
+DEST_KINDS = ["existing", "existing", "existing", "header_blank", "ends_multiline", "ends_section_header", "missing_template", "self", "header_only", "existing_template_match", "existing_template_match"]
 TEMPLATE = "# Template for done pages.\n\n## Done log {{ name }}\n##\n## second line\n\n################################ Moved here\n"
 
 
@@ -157,6 +158,10 @@ def run_dir(acc: Acc, seed: int, idx: int, nmoves: int, only=None) -> None:
                 dest = src
             elif dk == "missing_template":
                 dest = f"done_{mrng.choice(['a1', 'log', 'x'])}.zo"
+            elif dk == "existing_template_match":
+                # the destination EXISTS and its name matches a configured template pattern
+                dest = "done_old.zo"
+                (root / dest).write_text("# Done log old\n#\n# second line\n\n- 200102#Da archived earlier\n  * keep me\n\n################################ Moved here\n- 200103#Db also archived\n")
             else:
                 dest = f"dest_{dk}.zo"
                 text = {
@@ -261,7 +266,7 @@ def run_dir(acc: Acc, seed: int, idx: int, nmoves: int, only=None) -> None:
             if not ok:
                 continue
             zs_after = sorted(n.zid or "" for rel in comp for n in comp[rel])
-            zs_before = sorted([n["zid"] for n in rows if n["page"] in (src, dest)] + (["200101#Aa"] if dk in ("ends_multiline", "ends_section_header") else []))
+            zs_before = sorted([n["zid"] for n in rows if n["page"] in (src, dest)] + (["200101#Aa"] if dk in ("ends_multiline", "ends_section_header") else []) + (["200102#Da", "200103#Db"] if dk == "existing_template_match" else []))
             if zs_after != zs_before and FINDING_MENTION not in findings:
                 acc.violation(f"recompiling {src} and {dest} gives ZIDs {zs_after}, before the move {zs_before}", case, cls="set of notes changed by the move")
                 continue
